@@ -56,6 +56,12 @@ def tasks(tier, seed):
             fl.append(['twopl', 'stab'])
         for flags in fl:
             out.append({'shape': lpchecks.shape_data(I), 'flags': flags})
+    # with criteria: objective and load-balancing variables exist and carry arbitrary values within bounds; the
+    # printed figures must still be recomputed from the matching, not read from those variables
+    small = [s for s in shs if sum(len(g) for gs in s.prefs for g in gs) <= 4 and s.nl <= 2]
+    for i, I in enumerate(small[:6] if tier == 'quick' else small[:20]):
+        seq = [[('lmb', [])], [('lsb', []), ('maxsize', [])], [('mincostlsb', [1, 1])], [('maxsize', []), ('mincost', [])]][i % 4]
+        out.append({'shape': lpchecks.shape_data(I), 'flags': ['twopl'] if I.lprefs is not None else [], 'seq': seq})
     return out
 
 
@@ -230,7 +236,7 @@ def run_task(task):
 
     def body():
         e = S.engine()
-        run = e2.run_e2(I, flags, [], hook_factory=values_hook, clock=True)
+        run = e2.run_e2(I, flags, [(c_, list(a_)) for c_, a_ in task.get('seq', [])], hook_factory=values_hook, clock=True)
         m = run.solver.model
         x = {}
         for row in m.pairs:
@@ -367,7 +373,8 @@ def replay(cex):
         if bad:
             return True, 'instance:\n%s\nflags %s values %s\n%s' % (spec.inst_to_text(I, trailer=False), sorted(flags), sorted(k for k, v in pin.items() if v), '\n'.join(notes))
     for getter in ('get_results_short', 'get_results_long'):
-        out = rp.real_solve(J, flags, [], pin_x=pin, getter=getter, extra_calls=['get_results_long', 'get_results_short'])
+        out = rp.real_solve(J, flags, e2.opts_to_argv([(c_, list(a_)) for c_, a_ in d.get('seq', [])]), pin_x=pin, getter=getter,
+                            extra_calls=['get_results_long', 'get_results_short'])
         if out['exc']:
             return True, 'real run raised ' + out['exc']
         texts = [out['text']] + out.get('extra', [])
